@@ -91,12 +91,14 @@ static void check_case(int type, int op, int off, int typed, uint64_t oldv, uint
 	memcpy(image + 8 + off, &om, w);
 	char tb[400];
 	snprintf(tb, sizeof tb, "%s on %s at byte %d of the word, old value 0x%llx, operand a=0x%llx b=0x%llx, operands passed %s%s", onames[op], tnames[type], off,
-		(unsigned long long)om, (unsigned long long)a, (unsigned long long)b, typed ? "with the operand type" : "as (unsigned) long", pre ? ", old value written by a plain C assignment immediately before the call" : "");
+		(unsigned long long)om, (unsigned long long)a, (unsigned long long)b, typed == 1 ? "with the operand type" : typed == 2 ? "as unsigned int" : typed == 3 ? "as int" : "as (unsigned) long", pre ? ", old value written by a plain C assignment immediately before the call" : "");
 	trace = tb;
 	if (!grid_cases) n_cases++;
 
 	// ---- reference on the byte image
-	uint64_t m = mask_of(w), at = a & m, bt = b & m, newv = om, expret = 0; int has_ret = 0;
+	// the operand value is the C conversion of the passed expression to the operand type: (unsigned int)a zero-extends, (int)a sign-extends, then truncation to the width
+	uint64_t aval = typed == 2 ? (uint64_t)(unsigned int)a : typed == 3 ? (uint64_t)(int64_t)(int)a : a;
+	uint64_t m = mask_of(w), at = (op == UOP_CMPXCHG || op == UOP_STORE ? a : aval) & m, bt = b & m, newv = om, expret = 0; int has_ret = 0;
 	switch (op) {
 	case UOP_SET: case UOP_STORE: newv = at; break;
 	case UOP_READ: case UOP_LOAD: expret = om; has_ret = 1; break;
@@ -138,7 +140,7 @@ static void check_case(int type, int op, int off, int typed, uint64_t oldv, uint
 	if (wrapped || signbit) cls[UOP_N + UT_N]++;
 	if (wide) cls[UOP_N + UT_N + 1]++;
 	if (op == UOP_CMPXCHG && om == at) cls[UOP_N + UT_N + 2]++;
-	if (!typed) cls[UOP_N + UT_N + 3]++;
+	if (typed != 1) cls[UOP_N + UT_N + 3]++;
 	if (wrapped || signbit || wide) {
 		n_hits++;
 		uint64_t h = 1469598103934665603ull; for (unsigned char c : trace) { h ^= c; h *= 1099511628211ull; }
@@ -146,12 +148,12 @@ static void check_case(int type, int op, int off, int typed, uint64_t oldv, uint
 		if (samples.size() < 3 && n_hits % 101 == 1) samples.push_back(trace);
 	}
 }
-// exhaustive enumeration of the boundary grid: every type x operation x aligned position x passing style x old-value-written-by-plain-assignment {no, yes} x (old, a, b) in the 14-value boundary pool
+// exhaustive enumeration of the boundary grid: every type x operation x aligned position x operand passing style {operand type, (unsigned) long, unsigned int, int} x old-value-written-by-plain-assignment {no, yes} x (old, a, b) in the 14-value boundary pool
 static void grid()
 {
 	unsigned char guard[24]; for (int i = 0; i < 24; i++) guard[i] = 0xa5 ^ (i * 17);
 	grid_cases = 1;
-	for (int type = 0; type < UT_N; type++) for (int op = 0; op < UOP_N; op++) for (int off = 0; off < 8; off += widths[type]) for (int typed = 0; typed < 2; typed++) for (int pre = 0; pre < 2; pre++)
+	for (int type = 0; type < UT_N; type++) for (int op = 0; op < UOP_N; op++) for (int off = 0; off < 8; off += widths[type]) for (int typed = 0; typed < 4; typed++) for (int pre = 0; pre < 2; pre++)
 		for (int i = 0; i < 14; i++) for (int j = 0; j < 14; j++) for (int k = 0; k < 14; k++) {
 			check_case(type, op, off, typed, pool_at(i, widths[type]), pool_at(j, widths[type]), pool_at(k, widths[type]), guard, pre);
 			grid_cases++;
@@ -167,7 +169,7 @@ extern "C" int LLVMFuzzerTestOneInput(const uint8_t *data, size_t size)
 	FuzzedDataProvider fdp(data, size);
 	int type = fdp.ConsumeIntegralInRange<int>(0, UT_N - 1), op = fdp.ConsumeIntegralInRange<int>(0, UOP_N - 1), w = widths[type];
 	int off = fdp.ConsumeIntegralInRange<int>(0, 8 / w - 1) * w;	// every naturally aligned position inside the word
-	int typed = fdp.ConsumeIntegralInRange<int>(0, 3) != 0;
+	int typed = fdp.ConsumeIntegralInRange<int>(0, 5); if (typed > 3) typed = 1;
 	uint64_t oldv = pool(fdp, w), a = pool(fdp, w), b = pool(fdp, w);
 	if (op == UOP_CMPXCHG && fdp.ConsumeBool()) a = oldv;	// make the comparison succeed half of the time
 	unsigned char guard[24];
